@@ -5,9 +5,13 @@
 EXTENDS Naturals, Sequences, TLC, Json
 CONSTANTS MaxLen
 VARIABLES c, sched
-Cfgs == {[i |-> i, o |-> o, s |-> s] : i \in {2, 3, 5}, o \in {0, 1, 4, 7, 11}, s \in {0, 1, 2, 4, 9}}
-        \cup {[i |-> 20, o |-> o, s |-> s] : o \in {0, 3}, s \in {19, 39, 22}}     \* a start just before (and just after) a boundary of a long interval
-Ops(i) == {[op |-> "adv", d |-> d] : d \in {1, i - 1, i, i + 1, 2 * i + 1, 3 * i}} \cup {[op |-> "take", d |-> 0], [op |-> "hold", d |-> 0]}
+\* b: where on the calendar the mock clock starts -- 0: 2000-01-01, 1: the Unix epoch (start - offset may then lie before it), 2: a day earlier
+Cfgs == {[i |-> i, o |-> o, s |-> s, b |-> 0] : i \in {2, 3, 5}, o \in {0, 1, 4, 7, 11}, s \in {0, 1, 2, 4, 9}}
+        \cup {[i |-> 20, o |-> o, s |-> s, b |-> 0] : o \in {0, 3}, s \in {19, 39, 22}}     \* a start just before (and just after) a boundary of a long interval
+        \cup {[i |-> i, o |-> o, s |-> s, b |-> b] : i \in {2, 5}, o \in {1, 4, 11}, s \in {0, 1, 9}, b \in {1, 2}}
+        \cup {[i |-> 9, o |-> o, s |-> s, b |-> 0] : o \in {0, 4}, s \in {0, 5}}              \* an interval that divides neither a second nor a minute
+\* 90 * i: a stall of far more than a minute (a suspended machine, a stepped clock)
+Ops(i) == {[op |-> "adv", d |-> d] : d \in {1, i - 1, i, i + 1, 2 * i + 1, 3 * i, 90 * i}} \cup {[op |-> "take", d |-> 0], [op |-> "hold", d |-> 0]}
 Init == c \in Cfgs /\ sched = <<>>
 Next == Len(sched) < MaxLen /\ \E o \in Ops(c.i) : sched' = Append(sched, o) /\ UNCHANGED c
 Spec == Init /\ [][Next]_<<c, sched>>
